@@ -86,7 +86,8 @@ class Density:
 
     def value(self, q):
         if self.outside(q):
-            return math.inf
+            # bounded support written as `... - log(w**2 - q**2)` gives NaN outside, `np.inf` is the other idiom
+            return math.nan if self.spec.get("wall_value") == "nan" else math.inf
         v = 0.5 * q @ self.A @ q + self.b @ q + 0.25 * np.sum(self.c * q**4)
         for a, w, phi in self.ridges:
             v += a * _sin(w @ q + phi)
@@ -409,8 +410,51 @@ def metric_dense(spec, n):
     raise ValueError(t)
 
 
+VIA_WARM = ["eigval", "eigvec", "sqrt", "log_abs_det", "inv", "array", "diagonal", "T"]
+VIA_HOW = ["of-inverse", "inv-inv", "scale-unscale", "unscale-scale", "T"]
+
+
 def build_metric(spec, n):
-    """Construct the mici-side metric argument for a constant metric spec."""
+    """Construct the mici-side metric argument for a constant metric spec.  With a "via" entry the matrix object is
+    not handed over as constructed but *derived* - after evaluating some lazily cached attributes - through
+    operations that cancel mathematically (inverse of an object built for the inverse, double inverse, c*M/c,
+    transpose of a symmetric matrix), the way user code arrives at a metric (`metric = cov.inv`)."""
+    from mici import matrices as mm
+
+    M = _build_metric_plain(spec, n)
+    via = spec.get("via")
+    if not via or not isinstance(M, mm.Matrix):
+        return M
+
+    def warm(obj):
+        for w in via["warm"]:
+            if w == "diagonal" and not hasattr(type(obj), "diagonal"):
+                continue
+            getattr(obj, w)
+
+    how, c = via["how"], via["c"]
+    if how == "of-inverse":
+        X = np.linalg.inv(np.asarray(M.array, dtype=float))
+        X = mm.DensePositiveDefiniteMatrix(0.5 * (X + X.T))
+        warm(X)
+        return X.inv
+    warm(M)
+    if how == "inv-inv":
+        Y = M.inv
+        warm(Y)
+        return Y.inv
+    if how == "scale-unscale":
+        Y = c * M
+        warm(Y)
+        return Y / c
+    if how == "unscale-scale":
+        Y = M / c
+        warm(Y)
+        return Y * c
+    return M.T
+
+
+def _build_metric_plain(spec, n):
     from mici import matrices as mm
 
     t = spec["type"]
@@ -604,13 +648,23 @@ def density_spec(draw, n, walls=False, max_ridges=2):
     for _ in range(draw(st.integers(0, max_ridges))):
         spec["ridges"].append({"a": draw(unit(-0.6, 0.6)), "w": draw(vec(n, -1.5, 1.5)),
                                "phi": draw(unit(0.0, 6.283))})
-    if walls and draw(st.integers(0, 3)) == 0:
+    if walls and draw(st.integers(0, 3 if walls is True else int(walls) - 1)) == 0:   # walls: True = 1 in 4, n = 1 in n
         spec["wall"] = draw(unit(0.8, 3.0))
+        spec["wall_value"] = draw(st.sampled_from(["inf", "nan"]))
     return spec
 
 
 @st.composite
 def metric_spec(draw, n, types=None, allow_down=False):
+    spec = draw(_metric_spec_plain(n, types, allow_down))
+    if spec["type"] not in ("none", "diag_array", "dense_array") and draw(st.integers(0, 3)) == 0:
+        spec["via"] = {"how": draw(st.sampled_from(VIA_HOW)), "c": draw(st.sampled_from([0.25, 0.5, 2.0, 3.0])),
+                       "warm": draw(st.lists(st.sampled_from(VIA_WARM), max_size=2))}
+    return spec
+
+
+@st.composite
+def _metric_spec_plain(draw, n, types=None, allow_down=False):
     types = types or METRIC_TYPES
     choices = [t for t in types if not (t == "block" and n < 2) and not (t == "lowrank" and n < 2)]
     t = draw(st.sampled_from(choices))
